@@ -171,6 +171,14 @@ func (s *TunnelServiceHandler) openReverseTunnel(stream tunnelpb.TunnelService_O
 		key = s.affinityKey(ch)
 	}
 
+	if s.onReverseTunnelDisconnect != nil {
+		// Deferred before the removals below, so that it runs after them: the
+		// channel's own clean-up (unregister) does not cover a channel that
+		// ended while it was still being registered here, and a closed tunnel
+		// must not stay in the registry for as long as the callback takes.
+		defer s.onReverseTunnelDisconnect(ch)
+	}
+
 	s.reverse.add(ch, key)
 	defer s.reverse.remove(ch)
 
@@ -180,9 +188,6 @@ func (s *TunnelServiceHandler) openReverseTunnel(stream tunnelpb.TunnelService_O
 
 	if s.onReverseTunnelConnect != nil {
 		s.onReverseTunnelConnect(ch)
-	}
-	if s.onReverseTunnelDisconnect != nil {
-		defer s.onReverseTunnelDisconnect(ch)
 	}
 
 	<-ch.Done()
